@@ -1119,6 +1119,55 @@ mut("rec-dgn-mark-stamps-now", "break", ["C06"], "the marking loop of the cascad
                     Ordering::SeqCst,
                 ) {
                     Ok(_) => break,""")], ["REC-IMMEDIATE"])
+CL = "src/ebr_impl/collector.rs"
+mut("init-collector-deep-clone", "break", ["C13", "C18"], "Collector::clone creates a collector of its own (a fresh Global) instead of sharing",
+    [ed(CL, """        Collector {
+            global: self.global.clone(),
+        }""", """        Collector {
+            global: Arc::new(Global::new()),
+        }""")], ["EBR-INIT"])
+mut("init-register-handle-count-0", "break", ["C20", "C16"], "a fresh participant starts with handle_count 0",
+    [ed(I, "                handle_count: Cell::new(1),", "                handle_count: Cell::new(0),")], ["EBR-INIT"])
+mut("init-register-pinned", "break", ["C13", "C14"], "a fresh participant starts with a pinned epoch 0",
+    [ed(I, "                epoch: CachePadded::new(AtomicEpoch::new(Epoch::starting())),\n            });", "                epoch: CachePadded::new(AtomicEpoch::new(Epoch::starting().pinned())),\n            });")], ["EBR-INIT"])
+mut("init-register-collecting", "break", ["C15", "C20"], "a fresh participant starts with `collecting` set: it never collects",
+    [ed(I, "                collecting: Cell::new(false),", "                collecting: Cell::new(true),")], ["EBR-INIT"])
+mut("ok-register-flags-default", "benign", [], "the flags of a fresh participant are written Cell::default() / Default::default()",
+    [ed(I, "                collecting: Cell::new(false),", "                collecting: Cell::default(),"),
+     ed(I, "                must_collect: Cell::new(false),", "                must_collect: Default::default(),")])
+mut("deferred-boxed-call-leaks-box", "break", ["C15", "C04"], "the boxed `call` moves the closure out of the box and forgets the box (its allocation leaks)",
+    [ed(D, """                    let b: Box<F> = ptr::read(raw.cast::<Box<F>>());
+                    (*b)();""", """                    let b: Box<F> = ptr::read(raw.cast::<Box<F>>());
+                    let f: F = ptr::read(&*b);
+                    mem::forget(b);
+                    f();""")], ["EBR-DEFERRED-INLINE"])
+mut("deferred-call-skips-zst", "break", ["C15"], "Deferred::call does not invoke closures that capture nothing ('nothing to do for an empty closure')",
+    [ed(D, """        let call = self.call;
+        unsafe { call(self.data.as_mut_ptr().cast::<u8>()) };""", """        let call = self.call;
+        if mem::size_of_val(&self.data) == 0 {
+            return;
+        }
+        unsafe { call(self.data.as_mut_ptr().cast::<u8>()) };""")], ["EBR-DEFERRED-INLINE"])
+mut("ok-deferred-call-copy", "benign", [], "Deferred::call works on a local copy of the (Copy) storage",
+    [ed(D, """        let call = self.call;
+        unsafe { call(self.data.as_mut_ptr().cast::<u8>()) };""", """        let call = self.call;
+        let mut data = self.data;
+        unsafe { call(data.as_mut_ptr().cast::<u8>()) };""")])
+mut("wrap-rawshared-ptr-eq-ignores-tag", "break", ["C18", "C17"], "RawShared::ptr_eq compares the untagged addresses (the deletion mark is invisible)",
+    [ed(PT, "        self.inner.ptr_eq(other.inner)\n    }\n}", "        self.inner.as_raw() == other.inner.as_raw()\n    }\n}")], ["WRAP-ATOMICS"])
+mut("wrap-rawshared-with-tag-high", "break", ["C18"], "RawShared::with_tag sets the high (epoch) tag instead of the low one",
+    [ed(PT, """        Self {
+            inner: self.inner.with_tag(tag),
+            _marker: PhantomData,
+        }""", """        Self {
+            inner: self.inner.with_high_tag(tag),
+            _marker: PhantomData,
+        }""")], ["WRAP-ATOMICS"])
+mut("ok-rawshared-with-tag-from", "benign", [], "RawShared::with_tag builds its result through From<Tagged<T>>",
+    [ed(PT, """        Self {
+            inner: self.inner.with_tag(tag),
+            _marker: PhantomData,
+        }""", """        Self::from(self.inner.with_tag(tag))""")])
 mut("wrap-atomicepoch-cas-always-ok", "break", ["C13", "C14"], "AtomicEpoch::compare_exchange reports Ok on failure",
     [ed(EPF, "Err(data) => Err(Epoch { data }),", "Err(data) => Ok(Epoch { data }),")], ["WRAP-ATOMICS"])
 mut("wrap-defer-none-runs-now", "break", ["C01", "C02", "C13"], "Option<&Guard>::defer_with_inner runs f at once when no guard is given",
